@@ -82,6 +82,31 @@ def harvested_client_extensions():
     return _HARVESTED
 
 
+_HARVESTED_SERVER = None
+
+
+def harvested_server_extensions():
+    """the same for the extensions a server hello may carry (parsed by the server variant)"""
+    global _HARVESTED_SERVER
+    if _HARVESTED_SERVER is None:
+        from harness import sweep
+        from cryptoparser.tls.extension import TlsExtensionVariantServer
+        seen = {}
+        for cls, vs in sorted(sweep.library_vectors().items(), key=lambda kv: sweep.qualname(kv[0])):
+            name = sweep.qualname(cls)
+            if not name.startswith('cryptoparser.tls.extension.TlsExtension') or 'Client' in name or 'Variant' in name:
+                continue
+            for v in vs:
+                if len(v) >= 4 and int.from_bytes(v[2:4], 'big') == len(v) - 4:
+                    try:
+                        TlsExtensionVariantServer.parse_exact_size(v)
+                    except Exception:  # pylint: disable=broad-except
+                        continue
+                    seen.setdefault((int.from_bytes(v[:2], 'big'), v[4:].hex()), name)
+        _HARVESTED_SERVER = sorted(seen)
+    return _HARVESTED_SERVER
+
+
 def client_hello(rng, impl, scsv_at_end=True, no_dup=True, scsv=None):
     """fields of a client hello as the chenc command takes them, plus the list of extenc commands used"""
     suites = rnd_codes(rng, codes_of('TlsCipherSuiteFactory'), 2, rng.choice([1, 2, 5, 17, 40]))
